@@ -206,3 +206,47 @@ func (E *Engine) globalElemOnlyRead(g *ssa.Global) bool {
 	gi := E.globals[g]
 	return gi != nil && gi.storesOutsideInit == 0 && !gi.fieldUnsafe
 }
+
+// globalNonNil: a pointer variable assigned exactly once, by its package initialiser, with the
+// result of regexp.MustCompile (which returns a non-nil *Regexp or panics, aborting start-up)
+// or with the address of a fresh allocation, is never nil afterwards.
+func (E *Engine) globalNonNil(g *ssa.Global) bool {
+	gi := E.globals[g]
+	if gi == nil || !E.globalIsStable(g) || gi.initStores != 1 || gi.initVal == nil {
+		return false
+	}
+	if _, ok := g.Type().(*types.Pointer).Elem().Underlying().(*types.Pointer); !ok {
+		return false
+	}
+	switch x := gi.initVal.(type) {
+	case *ssa.Alloc:
+		return true
+	case *ssa.Call:
+		if c := x.Call.StaticCallee(); c != nil && c.Pkg != nil && c.Pkg.Pkg.Path() == "regexp" && c.Name() == "MustCompile" {
+			return true
+		}
+	}
+	return false
+}
+
+// stableGlobalTerm: the one fixed value of a stable package variable, with the non-nil fact
+// where globalNonNil establishes it.
+func (e *FnEnc) stableGlobalTerm(g *ssa.Global, key string, t types.Type) string {
+	if e.stableGlobals == nil {
+		e.stableGlobals = map[string]bool{}
+	}
+	e.stableGlobals[key] = true
+	term := e.R.heapConst(key, e.R.sortOf(t))
+	if e.E.globalNonNil(g) {
+		fct := fmt.Sprintf("(> %s 0)", term)
+		if e.globalFactSeen == nil {
+			e.globalFactSeen = map[string]bool{}
+		}
+		if !e.globalFactSeen[fct] {
+			e.globalFactSeen[fct] = true
+			e.note("package variable " + g.Name() + " is assigned once, by its initialiser, from regexp.MustCompile or a fresh allocation: not nil")
+			e.decls = append(e.decls, "(assert "+fct+")")
+		}
+	}
+	return term
+}
